@@ -1,7 +1,9 @@
 (* C14 — property theorems only.  Each is closed by [exact <lemma>] and followed by
    Print Assumptions; the statements are pinned here so they cannot be quietly weakened. *)
-From FB Require Import C14.Model C14.Model2 C14.Theory C14.Theory2 C14.Theory3 C14.Theory4 C14.Theory5 C14.Theory6 C14.Theory7 C14.Theory8.
+From FB Require Import C14.Model C14.Model2 C14.Theory C14.Theory2 C14.Theory3 C14.Theory4 C14.Theory5 C14.Theory6 C14.Theory7 C14.Theory8 C14.Theory9 C14.WithC07.
+From FB Require C07.Model C07.Schema C07.Tree C07.TreeTheory C07.RemapTable.
 From Coq Require Import Permutation ZArith.
+
 
 (* ---- 1. jar names = mapping names ---- *)
 
@@ -550,3 +552,112 @@ Print Assumptions C14_examples.
 Theorem C14_examples_round4 : nonvacuous8.
 Proof. exact nonvacuous8_holds. Qed.
 Print Assumptions C14_examples_round4.
+
+(* ---- 7. round 5: the helpers next to the nester that decide two clauses of the property ---- *)
+
+(* 7a. "renames EXACTLY those listed classes": a class the jar side renames is an applicable entry, a class the
+   mappings side renames is an entry (both remappers answer through ARemapper::map_class: whole-name lookup, else
+   the name itself) *)
+Theorem C14_jar_renames_only_applicable : forall J T c r,
+  NoDup (keys T) -> acyclic T -> jar_name J T c = Ok r -> r <> c -> In c (keys (this_nests J T)).
+Proof. exact jar_renames_only_applicable. Qed.
+Print Assumptions C14_jar_renames_only_applicable.
+
+Theorem C14_mapping_renames_only_listed : forall T c r,
+  acyclic T -> mapping_name T c = Ok r -> r <> c -> In c (keys T).
+Proof. exact mapping_renames_only_listed. Qed.
+Print Assumptions C14_mapping_renames_only_listed.
+
+(* an unlisted class whose name extends a listed name with `$` (Foo$Helper beside the listed Foo) keeps its name *)
+Theorem C14_dollar_child_unchanged : forall J T c x,
+  NoDup (keys T) -> acyclic T -> ~ In (c ++ cDOLLAR :: x) (keys T) ->
+  jar_name J T (c ++ cDOLLAR :: x) = Ok (c ++ cDOLLAR :: x) /\
+  mapping_name T (c ++ cDOLLAR :: x) = Ok (c ++ cDOLLAR :: x).
+Proof. exact dollar_child_unchanged. Qed.
+Print Assumptions C14_dollar_child_unchanged.
+
+Theorem C14_map_class_exact : forall m c, ~ In c (map fst m) -> map_class m c = c.
+Proof. exact map_class_exact. Qed.
+Print Assumptions C14_map_class_exact.
+
+(* a descriptor that mentions no renamed class is returned as it is *)
+Theorem C14_desc_keeps_unlisted : forall m d r,
+  map_desc (map_class m) d = Ok r -> (forall n, In n (desc_names d) -> ~ In n (map fst m)) -> r = d.
+Proof. exact desc_keeps_unlisted. Qed.
+Print Assumptions C14_desc_keeps_unlisted.
+
+(* pinned: Foo nested into Bar, Foo$Helper unlisted: Foo -> Bar$Foo, Foo$Helper stays (jar, mappings), and
+   (LFoo$Helper;LFoo;)V becomes (LFoo$Helper;LBar$Foo;)V *)
+Theorem C14_dollar_child_example : dollar_child_example.
+Proof. exact dollar_child_example_holds. Qed.
+Print Assumptions C14_dollar_child_example.
+
+(* 7b. "inner name expressed in the target namespace": for an inner or local nest without a custom inner name the
+   translated inner name is [the digits ++] the WHOLE last path segment of the class's target name — nothing is cut
+   at a `$` *)
+Theorem C14_inner_name_is_last_segment : forall cls d c r mapped i,
+  forallb is_digit d = true -> is_digit c = false -> ends_with cls (c :: r) = true ->
+  inner_name cls (d ++ c :: r) mapped = Ok i ->
+  exists seg, i = d ++ seg /\ ~ In cSLASH seg /\
+    ((~ In cSLASH mapped /\ seg = mapped) \/ exists p, mapped = p ++ cSLASH :: seg).
+Proof. exact inner_name_is_last_segment. Qed.
+Print Assumptions C14_inner_name_is_last_segment.
+
+Theorem C14_simple_name_keeps_dollar : forall p a b,
+  ~ In cSLASH a -> ~ In cSLASH b ->
+  get_simple_name (p ++ cSLASH :: a ++ cDOLLAR :: b) = a ++ cDOLLAR :: b /\
+  get_simple_name (a ++ cDOLLAR :: b) = a ++ cDOLLAR :: b.
+Proof. exact (fun p a b Ha Hb => conj (simple_name_keeps_dollar p a b Ha Hb) (simple_name_keeps_dollar_nopkg a b Ha Hb)). Qed.
+Print Assumptions C14_simple_name_keeps_dollar.
+
+(* derived inner names of two different target names of ONE package differ *)
+Theorem C14_same_package_distinct_simple : forall a b,
+  package_of a = package_of b -> get_simple_name a = get_simple_name b -> a = b.
+Proof. exact same_package_distinct_simple. Qed.
+Print Assumptions C14_same_package_distinct_simple.
+
+(* pinned: net/Things$Thing and net/Stuff$Thing in one enclosing class keep the inner names Things$Thing / Stuff$Thing,
+   a local class gets 1Things$Local, an anonymous class mapped to net/Host$C_12 keeps its number; a/Thing and b/Thing
+   (different packages) BOTH get the inner name Thing and apply gives both the target name net/Encl$Thing *)
+Theorem C14_dollar_target_example : dollar_target_example.
+Proof. exact dollar_target_example_holds. Qed.
+Print Assumptions C14_dollar_target_example.
+
+(* ---- 8. round 5: "rewrites every reference to them" (closes refs_rewritten) ----
+   The walk of dukebox::remap over a class tree is C07's subject: its table is regenerated from
+   dukebox/src/remap.rs on every run (translate/c07_remap_table.py, also run by this check), and C07 proves for EVERY
+   remapper that the interpreter of that table equals the specification of reference positions.  Instantiated here
+   with the remapper nest_jar hands over (ARemapperAsBRemapper(MyRemapper(map))): for every well-typed class tree the
+   walk returns what the specification demands with THIS remapper ...   (class_ty = TName "ClassFile", the root
+   type of duke's tree) *)
+Theorem C14_refs_rewritten : forall (J : jar) (T : table) (m : amap) (ctx : option str) (v : FB.C07.Tree.val),
+  jar_map (this_nests J T) = Ok m ->
+  FB.C07.Tree.has_ty FB.C07.RemapTable.type_defs FB.C07.TreeTheory.class_ty v = true ->
+  FB.C07.Tree.remap_val FB.C07.Tree.gen_table (nest_remapper m) ctx FB.C07.TreeTheory.class_ty v
+  = FB.C07.Tree.spec_remap_val FB.C07.RemapTable.type_defs (nest_remapper m) ctx FB.C07.TreeTheory.class_ty v.
+Proof. exact refs_rewritten. Qed.
+Print Assumptions C14_refs_rewritten.
+
+(* ... and quill's default methods on this remapper (C07's model of them) are the functions of C14's model, whose
+   answers part 6d characterises as jar_name: class names, descriptors (the two formulations of map_desc agree on every
+   string), array class names, declared members, field and method references *)
+Theorem C14_nest_remapper_is_jar_name : forall J T m c,
+  jar_map (this_nests J T) = Ok m -> FB.C07.Model.map_class (nest_remapper m) c = jar_name J T c.
+Proof. exact nest_remapper_is_jar_name. Qed.
+Print Assumptions C14_nest_remapper_is_jar_name.
+
+Theorem C14_nest_remapper_methods : forall m,
+  (forall c, FB.C07.Model.map_class (nest_remapper m) c = Ok (map_class m c)) /\
+  (forall d, FB.C07.Model.map_desc (nest_remapper m) d = map_desc (map_class m) d) /\
+  (forall c, FB.C07.Model.map_class_any (nest_remapper m) c = jr_class_any (map_class m) c) /\
+  (forall o n d, FB.C07.Model.map_field (nest_remapper m) o n d = jr_member (map_class m) (n, d)) /\
+  (forall o n d, FB.C07.Model.map_method (nest_remapper m) o n d = jr_member (map_class m) (n, d)) /\
+  (forall o n d, FB.C07.Model.map_field_ref (nest_remapper m) (o, n, d)
+     = match jr_member_ref (map_class m) o (n, d) with Ok (o', (n', d')) => Ok (o', n', d') | Err => Err end) /\
+  (forall o n d, FB.C07.Model.map_method_ref (nest_remapper m) (o, n, d)
+     = match jr_method_ref (map_class m) o (n, d) with Ok (o', (n', d')) => Ok (o', n', d') | Err => Err end).
+Proof.
+  exact (fun m => conj (nr_map_class m) (conj (nr_map_desc m) (conj (nr_map_class_any m) (conj (nr_map_field m)
+           (conj (nr_map_method m) (conj (nr_map_field_ref m) (nr_map_method_ref m))))))).
+Qed.
+Print Assumptions C14_nest_remapper_methods.
